@@ -299,7 +299,55 @@ func ExpandCond(f CondFact) []CondFact {
 	if u, ok := f.Cond.(*ssa.UnOp); ok && u.Op == token.NOT {
 		out = append(out, ExpandCond(CondFact{Cond: u.X, Polarity: !f.Polarity, If: f.If})...)
 	}
+	if a := passThroughArg(f.Cond); a != nil {
+		out = append(out, ExpandCond(CondFact{Cond: a, Polarity: f.Polarity, If: f.If})...)
+	}
 	return out
+}
+
+// passThroughArg: v is a call of a repository function with a single boolean
+// result that returns one of its own boolean parameters on every path
+// (`func respondIf(w, missing bool, …) bool { if missing { … }; return missing }`);
+// the call's result is then the corresponding argument.
+func passThroughArg(v ssa.Value) ssa.Value {
+	call, ok := v.(*ssa.Call)
+	if !ok {
+		return nil
+	}
+	callee := call.Call.StaticCallee()
+	if callee == nil || callee.Blocks == nil || callee.Signature.Results().Len() != 1 || len(callee.Params) != len(call.Call.Args) {
+		return nil
+	}
+	var par *ssa.Parameter
+	for _, b := range callee.Blocks {
+		if len(b.Instrs) == 0 {
+			continue
+		}
+		ret, ok := b.Instrs[len(b.Instrs)-1].(*ssa.Return)
+		if !ok {
+			continue
+		}
+		if len(ret.Results) != 1 {
+			return nil
+		}
+		p, ok := ret.Results[0].(*ssa.Parameter)
+		if !ok || (par != nil && p != par) {
+			return nil
+		}
+		par = p
+	}
+	if par == nil {
+		return nil
+	}
+	if bt, ok := par.Type().Underlying().(*types.Basic); !ok || bt.Kind() != types.Bool {
+		return nil
+	}
+	for i, p := range callee.Params {
+		if p == par {
+			return call.Call.Args[i]
+		}
+	}
+	return nil
 }
 
 // FactsAtInstr = FactsAt(block of instr).
